@@ -83,3 +83,10 @@ int libwifi_parse_deauth(struct libwifi_parsed_deauth *deauth, struct libwifi_fr
 
     return 0;
 }
+
+/**
+ * The tagged parameters copied by libwifi_parse_deauth are the only memory a libwifi_parsed_deauth owns.
+ */
+void libwifi_free_parsed_deauth(struct libwifi_parsed_deauth *deauth) {
+    free(deauth->tags.parameters);
+}
